@@ -1,8 +1,10 @@
 """Builder of REAL version-1 (Ledger) attestation certificates from an abstract description.
 
 Nothing here imports repository code: keys, signatures, tweaks, message layouts and the expected
-values are produced by independent means (python-`ecdsa` for keys and signatures by default,
-`hmac`/`hashlib` for tweaks, plain integer arithmetic for the curve-membership test).  The only
+values are produced by independent means (textbook ECDSA with RFC 6979 nonces on top of python-`ecdsa`'s
+curve arithmetic for keys and signatures - libsecp256k1, which the code under test uses, only on
+request via backend="libsecp" -, `hmac`/`hashlib` for tweaks, plain integer arithmetic for the
+curve-membership test).  The only
 thing shared with the code under test is the *file format* of a version-1 certificate.
 
 Format facts this module encodes (the oracle side of C06/C08/C15/C16):
@@ -21,7 +23,9 @@ Format facts this module encodes (the oracle side of C06/C08/C15/C16):
 
 API (used by drivers c06/c16 and meant for reuse by the verify / attestation-flow checks):
 
-    chain = build(spec, rng, backend="ecdsa")        -> Chain
+    chain = build(spec, rng, backend="ecdsa", keypool=None)        -> Chain
+        (keypool: optional `KeyPool(seed).picker()` to draw keys from a fixed population instead of
+         generating fresh ones - faster when very many certificates are built)
         spec = {"targets": [names],
                 "elements": [{"name": n, "signed_by": p,            # declared certifier
                               "signer": p2,         # optional: who REALLY signs (default p);
@@ -72,9 +76,9 @@ import copy
 import hashlib
 import hmac
 import json
+import random
 
 import ecdsa
-from ecdsa.util import sigencode_der_canonize
 
 NAMES = ("device", "attestation", "ui", "signer")
 ROOT = "root"
@@ -83,16 +87,53 @@ N = 0xFFFFFFFFFFFFFFFFFFFFFFFFFFFFFFFEBAAEDCE6AF48A03BBFD25E8CD0364141
 _CURVE = ecdsa.SECP256k1
 
 
+_G = _CURVE.generator
+
+
+def _pub_point(d):
+    pt = _G * d
+    return pt.x(), pt.y()
+
+
+def ecdsa_sign(d, message):
+    """DER, low-S, RFC 6979 ECDSA/secp256k1 signature over SHA-256(message) with secret scalar d
+    (textbook ECDSA on top of python-ecdsa's point arithmetic; no public key needed)."""
+    from ecdsa.rfc6979 import generate_k
+    from ecdsa.util import sigencode_der
+    digest = hashlib.sha256(message).digest()
+    h = int.from_bytes(digest, "big")
+    k = generate_k(N, d, hashlib.sha256, digest)
+    r = (_G * k).x() % N
+    s = pow(k, -1, N) * (h + d * r) % N
+    if r == 0 or s == 0:
+        raise ValueError("degenerate signature")
+    if s > N // 2:
+        s = N - s
+    return sigencode_der(r, s, N)
+
+
 class Key:
-    """A secp256k1 key pair; `d` is the secret scalar."""
-    __slots__ = ("d", "pub65", "pub33", "_sk")
+    """A secp256k1 key pair; `d` is the secret scalar.  The public key is computed on first use."""
+    __slots__ = ("d", "_pub")
 
     def __init__(self, d):
         self.d = d
-        self._sk = ecdsa.SigningKey.from_secret_exponent(d, _CURVE, hashfunc=hashlib.sha256)
-        vk = self._sk.get_verifying_key()
-        self.pub65 = vk.to_string("uncompressed")
-        self.pub33 = vk.to_string("compressed")
+        self._pub = None
+
+    def _xy(self):
+        if self._pub is None:
+            self._pub = _pub_point(self.d)
+        return self._pub
+
+    @property
+    def pub65(self):
+        x, y = self._xy()
+        return b"\x04" + x.to_bytes(32, "big") + y.to_bytes(32, "big")
+
+    @property
+    def pub33(self):
+        x, y = self._xy()
+        return bytes([2 + (y & 1)]) + x.to_bytes(32, "big")
 
     @property
     def hex(self):
@@ -111,12 +152,32 @@ class Key:
             import secp256k1
             pk = secp256k1.PrivateKey(self.d.to_bytes(32, "big"), raw=True)
             return pk.ecdsa_serialize(pk.ecdsa_sign(message))
-        return self._sk.sign_deterministic(message, hashfunc=hashlib.sha256,
-                                           sigencode=sigencode_der_canonize)
+        return ecdsa_sign(self.d, message)
 
 
 def new_key(rng):
     return Key(rng.randrange(1, N))
+
+
+class KeyPool:
+    """A fixed population of keys (derived from `seed`), handed out without repetition inside one
+    certificate: saves the scalar multiplication per key when very many certificates are built.
+        pool = KeyPool(seed);  build(spec, rng, keypool=pool.picker())"""
+
+    def __init__(self, seed, size=64):
+        r = random.Random("certv1-keypool:%s" % (seed,))
+        self.keys = [Key(r.randrange(1, N)) for _ in range(size)]
+
+    def picker(self):
+        used = set()
+
+        def mk(rng):
+            while True:
+                i = rng.randrange(len(self.keys))
+                if i not in used:
+                    used.add(i)
+                    return self.keys[i]
+        return mk
 
 
 def point_class(b):
